@@ -131,9 +131,43 @@ func c07Variants(poolN int) []c07Variant {
 	return out
 }
 
-var c07VarsQuick = c07Variants(3)    // 25 maps
-var c07VarsThorough = c07Variants(4) // 45 maps (signing histories, thorough)
-var c07VarsAll = c07Variants(5)      // 71 maps (function sweeps)
+const c07NarrowPool = 5 // c07Pool[:5] is the hand-picked pool above; the generated names follow
+
+// Forty generated attribute names of 3, 4 and 5 bytes (many share a length) whose leading letters are scrambled, so
+// that insertion order, plain string order and deterministic order (shorter first, then bytewise) all differ: the
+// NUMBER of attributes is a quantity too - a sort that is only stable, or only correct, up to a dozen elements, a
+// fixed-size table, a map head that changes width at 24 - and the hand-picked pool stops at three entries per map.
+func init() {
+	for i := 0; i < 40; i++ {
+		name := fmt.Sprintf("%c%02d%s", "abcdefghijklmnopqrstuvwxyz"[(i*7)%26], i, strings.Repeat("p", i%3))
+		c07Pool = append(c07Pool, c07Extra{name, pattern(1+i%5, int64(80+i))})
+	}
+	for _, n := range []int{11, 12, 13, 14, 22, 23, 24, 40} {
+		var asc, desc, scr []int
+		for i := 0; i < n; i++ {
+			asc = append(asc, c07NarrowPool+i)
+			desc = append(desc, c07NarrowPool+n-1-i)
+			scr = append(scr, c07NarrowPool+(i*7)%n)
+		}
+		if n%7 == 0 { // 7 does not generate Z/n: fall back to a rotation
+			scr = append(append([]int{}, asc[n/2:]...), asc[:n/2]...)
+		}
+		wide := []c07Variant{
+			{order: append([]int{-1}, asc...), name: fmt.Sprintf("K+%d-generated-ascending", n)},
+			{order: append(append([]int{}, desc...), -1), name: fmt.Sprintf("%d-generated-descending+K", n)},
+			{order: append(append(append([]int{}, scr[:n/2]...), -1), scr[n/2:]...), name: fmt.Sprintf("%d-generated-scrambled-around-K", n)},
+		}
+		c07VarsAll = append(c07VarsAll, wide...)
+		if n == 13 || n == 24 {
+			c07VarsQuick = append(c07VarsQuick, wide[2])
+			c07VarsThorough = append(c07VarsThorough, wide[1], wide[2])
+		}
+	}
+}
+
+var c07VarsQuick = c07Variants(3)    // 25 maps (+ 2 wide ones)
+var c07VarsThorough = c07Variants(4) // 45 maps (signing histories, thorough; + 4 wide ones)
+var c07VarsAll = c07Variants(5)      // 71 maps (function sweeps; + 24 wide ones)
 
 // c07BuildAttrs builds the implementation's map (inserting in the variant's
 // order) and the reference attribute list.  withKey=false leaves the key entry out.
